@@ -4,9 +4,12 @@
 //  MODE_HONEST: an honest contiguous embedding at any offset is accepted
 //  MODE_POW   : checkProofOfWork(BtcBlock) == 256-bit reference (symbolic bits and hash bytes)
 //  MODE_CTX   : checkBtcBlocks true => every header meets its PoW and prev[i] == hash[i-1]
+//  MODE_VBKPOW: checkProofOfWork(VbkBlock) == reference (target = (2^192-1) / decoded difficulty, minimum difficulty of the network)
+//  MODE_VBKCTX: checkVbkBlocks valid iff every header meets its PoW, heights increase by one and each header references its predecessor
 #include <veriblock/pop/entities/vbkpoptx.hpp>
 #include <veriblock/pop/stateless_validation.hpp>
 #include <veriblock/pop/blockchain/btc_chain_params.hpp>
+#include <veriblock/pop/blockchain/vbk_chain_params.hpp>
 using namespace altintegration;
 namespace altintegration { bool checkBitcoinTransactionForPoPData(const VbkPopTx& tx, ValidationState& state); }
 #ifndef TXLEN
@@ -114,6 +117,83 @@ extern "C" __attribute__((noinline)) void h_stateless() {
   if (got) verif_cover(1);
   if (!allPow) verif_cover(2);
   if (!contiguous) verif_cover(3);
+#elif defined(MODE_VBKPOW) || defined(MODE_VBKCTX) || defined(MODE_VBKPLAUS)
+  int net = (int)verif_choice(0, 2);
+  VbkChainParams& p = net == 0 ? *(VbkChainParams*)new VbkChainParamsRegTest() : net == 1 ? *(VbkChainParams*)new VbkChainParamsTest() : *(VbkChainParams*)new VbkChainParamsMain();
+  const uint64_t minDiff = net == 0 ? 1ull : net == 1 ? 0x05F5E100ull : 0x14f46b0400ull;          // documented minimum difficulties (regtest / testnet / mainnet)
+  // reference: decoded difficulty d (non-negative, no overflow, non-zero, >= minimum); target = floor((2^192 - 1) / d); hash (big-endian 192-bit number) <= target
+  struct Ref { static bool pow(uint32_t bits, const uint8_t* hash24, uint64_t minDiff) {
+    bool neg, ovf; R256 t = refSetCompact(bits, neg, ovf);
+    if (neg || ovf || rzero(t)) return false;
+    uint64_t d = 0; for (int i = 7; i >= 0; i--) d = (d << 8) | t.b[i];
+    for (int i = 8; i < 32; i++) if (t.b[i]) return true == false ? false : (/* d >= 2^64: */ false);   // outside the grid of this harness
+    if (d < minDiff) return false;
+    R256 q; for (int i = 0; i < 32; i++) q.b[i] = 0;
+    unsigned __int128 rem = 0;
+    for (int i = 23; i >= 0; i--) { rem = (rem << 8) | 0xff; q.b[i] = (uint8_t)(rem / d); rem %= d; }
+    R256 h; for (int i = 0; i < 32; i++) h.b[i] = i < 24 ? hash24[23 - i] : 0;
+    return rcmp(h, q) <= 0; } };
+  static const uint32_t mant[6] = {0x000000, 0x000001, 0x05F5E1, 0x14f46b, 0x7fffff, 0x800001};
+  static const int forkH[3] = {0, 872000, 1512000};
+  static const uint32_t startT[3] = {0, 1600444017u, 1600716052u};
+#if defined(MODE_VBKPLAUS)
+  // checkVbkBlockPlausibility == the documented window: height at or above the progpow fork height and inside the supported epochs;
+  // (networks with a start time) timestamp not before the start time and inside [start + 30s*(h-fork)*10/12 - 5 days, start + 30s*(h-fork)*12/10 + 5 days]
+  int64_t off = (int64_t)verif_choice(0, 40) * 1777 - 16;            // height relative to the fork height: 41 values from -16 to 71064 (case split: the window bounds divide by 10 and 12)
+  uint32_t ts = nondet_u32();
+  VbkBlock b; b.setHeight((int32_t)(forkH[net] + off)); b.setTimestamp(ts);
+  auto& st = *new ValidationState();
+  bool got = checkVbkBlockPlausibility(b, st, p);
+  int64_t h = forkH[net] + off;
+  bool want;
+  if (h < forkH[net]) want = false;
+  else if (h / 8000 > 4096) want = false;
+  else if (net == 0) want = true;
+  else {
+    int64_t start = startT[net], d = h - forkH[net];
+    int64_t upper = start + 30 * d * 12 / 10 + 5 * 86400, lower = start + 30 * d * 10 / 12 - 5 * 86400;
+    if (lower < start) lower = start;
+    want = (int64_t)ts >= start && (int64_t)ts <= upper && (int64_t)ts >= lower;
+  }
+  verif_check(got == want, 1);
+  if (got) verif_cover(1); else verif_cover(2);
+  if (net && off > 20000 && got) verif_cover(3);
+#elif defined(MODE_VBKPOW)
+  uint32_t bits = (verif_choice(1, 8) << 24) | mant[verif_choice(0, 5)];
+  VbkBlock b; b.setDifficulty((int32_t)bits);
+  uint8_t hd[24]; for (int i = 0; i < 24; i++) { hd[i] = nondet_u8(); ((uint8_t*)b.hash_.data())[i] = hd[i]; }
+  uint8_t nz = 0; for (int i = 0; i < 24; i++) nz |= hd[i];
+  verif_assume(nz != 0);                                            // an all-zero memo means "not computed" (progpow is not encoded)
+  bool got = checkProofOfWork(b, p);
+  verif_check(got == Ref::pow(bits, hd, minDiff), 1);
+  if (got) verif_cover(1); else verif_cover(2);
+#else
+  uint32_t n = verif_choice(1, NBLK);
+  auto& v = *new std::vector<VbkBlock>();
+  bool allPow = true, contiguous = true;
+  for (uint32_t i = 0; i < n; i++) {
+    uint32_t bits = verif_cbool() ? 0x0514f46c : 0x01000001;         // meets every network's minimum / only regtest's
+    VbkBlock b; b.setDifficulty((int32_t)bits); b.setHeight((int32_t)(forkH[net] + 100 + i)); b.setTimestamp(startT[net] + 30 * (100 + i));   // plausible height / time for the network
+    uint8_t* h = (uint8_t*)b.hash_.data(); for (int k = 0; k < 24; k++) h[k] = 0; h[23] = (uint8_t)(i + 1); h[0] = nondet_u8(); h[8] = nondet_u8();
+    if (i > 0) {
+      const uint8_t* ph = v[i - 1].hash_.data();
+      for (int k = 0; k < 12; k++) ((uint8_t*)b.previousBlock.data())[k] = ph[12 + k];   // the previous-block field holds the LAST 12 bytes of the predecessor's hash
+      uint32_t brk = verif_choice(0, 2);
+      if (brk == 1) { ((uint8_t*)b.previousBlock.data())[3] ^= 1; contiguous = false; }
+      if (brk == 2) { b.setHeight((int32_t)(forkH[net] + 100 + i + 1)); contiguous = false; }
+      h = (uint8_t*)b.hash_.data(); for (int k = 0; k < 24; k++) h[k] = 0; h[23] = (uint8_t)(i + 1); h[0] = nondet_u8(); h[8] = nondet_u8();   // setters emptied the memo: preset again
+    }
+    uint8_t hd[24]; for (int k = 0; k < 24; k++) hd[k] = b.hash_.data()[k];
+    allPow = allPow && Ref::pow(bits, hd, minDiff);
+    v.push_back(b);
+  }
+  auto& st = *new ValidationState();
+  bool got = checkVbkBlocks(v, st, p);
+  verif_check(got == (allPow && contiguous), 1);
+  if (got) verif_cover(1);
+  if (!allPow) verif_cover(2);
+  if (!contiguous) verif_cover(3);
+#endif
 #else
 #error mode
 #endif
